@@ -53,6 +53,7 @@ func Open(path string) (*CIDPrimary, error) {
 	}
 	length, err := file.Seek(0, io.SeekEnd)
 	if err != nil {
+		file.Close()
 		return nil, err
 	}
 	return &CIDPrimary{
